@@ -184,10 +184,13 @@ def cross_run(policy):
     logs.initialize_record_handler(ub, rb, lambda: None)
     la, lb = logs.get_record_logger_for(ua), logs.get_record_logger_for(ub)
 
-    def run(lgr, tag):
+    def run(lgr, tag, uid):
       for i in (1, 2):
+        if i == 2:
+          # helper code looks the run's logger up per log line (module docstring of logs.py)
+          lgr = logs.get_record_logger_for(uid)
         lgr.warning('%s%d', tag, i)
-    ths = [threading.Thread(target=run, args=(la, 'A'), name='A'), threading.Thread(target=run, args=(lb, 'B'), name='B')]
+    ths = [threading.Thread(target=run, args=(la, 'A', ua), name='A'), threading.Thread(target=run, args=(lb, 'B', ub), name='B')]
     for t in ths:
       t.start()
     for t in ths:
